@@ -3,10 +3,16 @@ import CashewsVerif.Model.Lock
 /- Driver for C06: replays a recorded trace of lock-protocol actions on the transition system of
 `Model/Lock.lean`, once over the in-memory backend model (`model=`) and once over the ideal TTL map
 (`spec=`), and reports after every action who is inside which section and whether within the lease
-(`in=` task:key:L|X, from the spec run).
+(`in=` task:key:L|X|U, from the spec run; U = in the section without a lock) and which threads are in
+a transaction (`tx=` thread:mode:depth:overlay size).  Keys are numbered `100 * backend + k`: backend
+`key / 100` owns `key`.
 
     case <cap>
-    enter <t> <key> <ttl|-> <w|n>
+    backend <b> <set_lock 0|1> <ping 0|1>      health of a configured backend (default: healthy)
+    enter <t> <thread> <key> <ttl|-> <w|n>
+    txbegin <thread> <f|l|s>
+    txset <thread> <k> <v>
+    txend <thread> <c|r>
     attempt <t>
     leave <t> <n|e|c>
     giveup <t>
@@ -21,6 +27,7 @@ structure St where
   mem  : LockSt Mem
   spec : LockSt TtlMap
   ids  : List Nat
+  ths  : List Nat
 
 def parseHow? (s : String) : Option How :=
   if s = "n" then some .normal else if s = "e" then some .exc else if s = "c" then some .cancel else none
@@ -28,9 +35,22 @@ def parseHow? (s : String) : Option How :=
 def parseWait? (s : String) : Option Bool :=
   if s = "w" then some true else if s = "n" then some false else none
 
+def parseBit? (s : String) : Option Bool :=
+  if s = "1" then some true else if s = "0" then some false else none
+
+def parseMode? (s : String) : Option TxMode :=
+  if s = "f" then some .fast else if s = "l" then some .locked else if s = "s" then some .serializable else none
+
+def parseCommit? (s : String) : Option Bool :=
+  if s = "c" then some true else if s = "r" then some false else none
+
 def parseAct? : List String → Option Act
-  | ["enter", t, key, ttl, w] => do
-    pure (.enter (← t.toNat?) (← key.toNat?) (← parseTtl? ttl) (← parseWait? w))
+  | ["enter", t, th, key, ttl, w] => do
+    pure (.enter (← t.toNat?) (← th.toNat?) (← key.toNat?) (← parseTtl? ttl) (← parseWait? w))
+  | ["backend", b, sl, pg] => do pure (.setHealth (← b.toNat?) ⟨← parseBit? sl, ← parseBit? pg⟩)
+  | ["txbegin", th, m] => do pure (.txBegin (← th.toNat?) (← parseMode? m))
+  | ["txset", th, k, v] => do pure (.txSet (← th.toNat?) (← k.toNat?) (← v.toNat?))
+  | ["txend", th, c] => do pure (.txEnd (← th.toNat?) (← parseCommit? c))
   | ["attempt", t] => do pure (.attempt (← t.toNat?))
   | ["leave", t, how] => do pure (.leave (← t.toNat?) (← parseHow? how))
   | ["giveup", t] => do pure (.giveUp (← t.toNat?))
@@ -45,6 +65,8 @@ def showLOut : LOut → String
   | .acquired => "A"
   | .retry => "R"
   | .locked => "L"
+  | .noLocking => "N"
+  | .down => "D"
   | .released true => "rT"
   | .released false => "rF"
   | .bool true => "T"
@@ -55,18 +77,35 @@ def showInside (s : LockSt TtlMap) (ids : List Nat) : String :=
   let items := ids.filterMap fun t =>
     match s.tasks t with
     | .inside key _ dl => some s!"{t}:{key}:{if liveAt dl s.be.now then "L" else "X"}"
+    | .unguarded key => some s!"{t}:{key}:U"
     | _ => none
+  if items.isEmpty then "-" else ",".intercalate items
+
+def showMode : TxMode → String
+  | .fast => "f"
+  | .locked => "l"
+  | .serializable => "s"
+
+def showTx (s : LockSt TtlMap) (ths : List Nat) : String :=
+  let items := ths.filterMap fun th =>
+    match s.tx th with
+    | some c => some s!"{th}:{showMode c.mode}:{c.depth}:{c.overlay.length}"
+    | none => none
   if items.isEmpty then "-" else ",".intercalate items
 
 def actTask? : Act → Option Nat
   | .enter t .. => some t
   | _ => none
 
+def actThread? : Act → Option Nat
+  | .txBegin th _ => some th
+  | _ => none
+
 def step' (st : St) (line : String) : St × String :=
   match words line with
   | ["case", cap] =>
     match cap.toNat? with
-    | some c => ({ mem := init (Mem.init c), spec := init TtlMap.init, ids := [] }, "ok")
+    | some c => ({ mem := initRouted (Mem.init c) 100, spec := initRouted TtlMap.init 100, ids := [], ths := [] }, "ok")
     | none => (st, "bad-op")
   | ws =>
     match parseAct? ws with
@@ -77,8 +116,11 @@ def step' (st : St) (line : String) : St × String :=
       let ids := match actTask? a with
         | some t => if st.ids.contains t then st.ids else st.ids ++ [t]
         | none => st.ids
-      ({ mem := m', spec := t', ids := ids },
-       s!"model={showLOut o} spec={showLOut o'} in={showInside t' ids}")
+      let ths := match actThread? a with
+        | some th => if st.ths.contains th then st.ths else st.ths ++ [th]
+        | none => st.ths
+      ({ mem := m', spec := t', ids := ids, ths := ths },
+       s!"model={showLOut o} spec={showLOut o'} in={showInside t' ids} tx={showTx t' ths}")
 
 def main : IO Unit :=
-  mainLoop step' { mem := init (Mem.init 1000), spec := init TtlMap.init, ids := [] }
+  mainLoop step' { mem := initRouted (Mem.init 1000) 100, spec := initRouted TtlMap.init 100, ids := [], ths := [] }
